@@ -257,6 +257,11 @@ Definition difference (ea : omap) (headsa : list entry) (lb : log) : option omap
    otherLog.RawHeads() returned (for a quiescent source all three come from one state). *)
 Definition entry_ok (l : log) (e : entry) : bool := allowed l e && e_sigok e && negb (N.eqb (e_key e) 0).
 
+(* the other log's heads only name candidates: Join looks them up among the entries the log holds
+   after the merge and takes ITS OWN objects (an unknown key is dropped) *)
+Definition own_heads (ents : omap) (src_heads : omap) : omap :=
+  fold_left (fun m kv => match oget ents (fst kv) with Some own => oset m (fst kv) own | None => m end) src_heads [].
+
 Definition join_reads (l : log) (src_id : N) (same_instance : bool)
            (src_entries : omap) (src_heads1 src_heads2 : omap) (size : Z) : log * outcome unit :=
   if same_instance then (l, Ok tt) else
@@ -268,7 +273,7 @@ Definition join_reads (l : log) (src_id : N) (same_instance : bool)
     let nx := fold_left (fun nx e => fold_left (fun nx n => oset nx n e) (e_next e) nx) (oslice newitems) (l_next l) in
     let ents := fold_left (fun m e => oset m (e_hash e) e) (oslice newitems) (l_entries l) in
     let nexts_new := all_nexts (oslice newitems) in
-    let merged := find_heads (omerge (l_heads l) src_heads2) in
+    let merged := find_heads (omerge (l_heads l) (own_heads ents src_heads2)) in
     let merged' := map (fun e => if mem (e_hash e) nexts_new || ohas nx (e_hash e) then None else Some e) merged in
     let heads := from_opt_entries merged' in
     let l1 := mkLog (l_id l) ents heads nx (l_time l) (l_cid l) (l_key l) (l_sort l) (l_deny l) in
